@@ -27,6 +27,8 @@ class StateVectorEvolution(MatrixData, BasisManaged):
                                  dtype=numpy.complex128)
         self.dim = psii.data.shape[0]
         self.data[0,:] = psii.data
+        
+        self.is_in_rwa = False
 
 
     def convert_from_RWA(self, ham, sgn=1):
@@ -53,7 +55,7 @@ class StateVectorEvolution(MatrixData, BasisManaged):
                 # evolution operator
                 Ut = numpy.exp(-sgn*1j*HOmega*t)
                 # revert RWA
-                rhot = numpy.dot(Ut,self.data[i,:])
+                rhot = Ut*self.data[i,:]
                 self.data[i,:] = rhot
                 
         if sgn == 1:
